@@ -286,6 +286,26 @@ def d10_modifier_sets(chk, F):
     silently stopped firing for that modifier)."""
     for (fn, method), want in sorted(MODIFIER_SETS.items()):
         sites = modifier_set_calls(F, fn, method)
+        if not sites and method == "contains":
+            # `m.contains(A | B)` written as `m.contains(A) && m.contains(B)` (possibly through hoisted bools): some error report
+            # of the function is reachable only with every flag of the reviewed set tested true
+            from cfgq import path_without_success
+            for g in F.find(fn):
+                if g.is_closure():
+                    continue
+                dests = {}
+                for b, t in g.calls():
+                    ck = callee_key(t) or ""
+                    if "Modifiers" in ck and ck.rsplit("::", 1)[-1] == "contains" and len(t.get("args", [])) == 2 and not t["dest"]["p"]:
+                        cs = {l.split("::")[-1] for l in leaves(resolve(g, t["args"][1])) if l.startswith("const:") and "Modifiers::" in l}
+                        if len(cs) == 1:
+                            dests.setdefault(next(iter(cs)), []).append(t["dest"]["l"])
+                if not all(fl in dests for fl in want):
+                    continue
+                for eb, _ in calls_to(g, "SourceReport::error"):
+                    if all(path_without_success(g, eb, dests[fl]) is None for fl in want):
+                        sites = [(g, eb, set(want))]
+                        break
         chk.expect(bool(sites), "C07.D10-modifier-sets", f"{fn}|{method}#present", "",
                    f"anchor-missing: no {method}() test on a union of Modifiers constants left in {fn}", sample=f"{fn}: {method}({sorted(want)})")
         for h, b, cs in sites:
